@@ -176,6 +176,51 @@ pub fn check(s: &'static dyn Proto, c: &Case, st: &mut Stats, _k: &KnownFindings
                 }
             }
         }
+        // whatever a decoder accepted is re-serialised through every codec and fed to the step that
+        // consumes it
+        let use_accepted = |ty: Ty, obj: Obj, what: String| -> Result<(), Fail> {
+            call(&what, || {
+                        for cd in CODECS {
+                            let img = s.ser(cd, &obj);
+                            let _ = s.de(cd, ty, &img);
+                        }
+                        match ty {
+                            Ty::ServerSetup => {
+                                let _ = s.setup_public_key(&obj);
+                                let _ = s.server_reg_start(&obj, samples.get(Ty::RegReq), b"cred");
+                                for rec in [Some(samples.get(Ty::ServerReg)), None] {
+                                    let _ = s.server_login_start(&mut spec.derive(40).rng(), &obj, rec, samples.get(Ty::CredReq), b"cred", None, Ids::default());
+                                }
+                            }
+                            Ty::RegReq => {
+                                let _ = s.server_reg_start(setup, &obj, b"cred");
+                            }
+                            Ty::RegResp => {
+                                let _ = s.client_reg_finish(s.clone_obj(samples.get(Ty::ClientReg)), &mut spec.derive(41).rng(), b"sample password", &obj, Ids::default(), None);
+                            }
+                            Ty::RegUpload => {
+                                let rec = s.server_reg_finish(&obj);
+                                let _ = s.server_login_start(&mut spec.derive(42).rng(), setup, Some(&rec), samples.get(Ty::CredReq), b"cred", None, Ids::default());
+                            }
+                            Ty::ServerReg => {
+                                let _ = s.server_login_start(&mut spec.derive(43).rng(), setup, Some(&obj), samples.get(Ty::CredReq), b"cred", None, Ids::default());
+                            }
+                            Ty::CredReq => {
+                                let _ = s.server_login_start(&mut spec.derive(44).rng(), setup, Some(samples.get(Ty::ServerReg)), &obj, b"cred", None, Ids::default());
+                            }
+                            Ty::CredResp => {
+                                let _ = s.client_login_finish(s.clone_obj(samples.get(Ty::ClientLogin)), b"sample password", &obj, None, Ids::default(), None);
+                            }
+                            Ty::ClientReg => {
+                                let _ = s.client_reg_finish(obj, &mut spec.derive(45).rng(), b"sample password", samples.get(Ty::RegResp), Ids::default(), None);
+                            }
+                            Ty::ClientLogin => {
+                                let _ = s.client_login_finish(obj, b"sample password", samples.get(Ty::CredResp), None, Ids::default(), None);
+                            }
+                            _ => {}
+                        }
+            })
+        };
         for ty in ALL_TYS {
             let native = if DECODERS11.contains(&ty) {
                 s.ser(Codec::Native, samples.get(ty))
@@ -219,47 +264,39 @@ pub fn check(s: &'static dyn Proto, c: &Case, st: &mut Stats, _k: &KnownFindings
                     }
                     let Some(obj) = obj else { continue };
                     used += 1;
-                    call(&format!("use of an accepted {} with {} := {class}", ty.name(), f.name), || {
-                        for cd in CODECS {
-                            let img = s.ser(cd, &obj);
-                            let _ = s.de(cd, ty, &img);
-                        }
-                        match ty {
-                            Ty::ServerSetup => {
-                                let _ = s.setup_public_key(&obj);
-                                let _ = s.server_reg_start(&obj, samples.get(Ty::RegReq), b"cred");
-                                for rec in [Some(samples.get(Ty::ServerReg)), None] {
-                                    let _ = s.server_login_start(&mut spec.derive(40).rng(), &obj, rec, samples.get(Ty::CredReq), b"cred", None, Ids::default());
-                                }
-                            }
-                            Ty::RegReq => {
-                                let _ = s.server_reg_start(setup, &obj, b"cred");
-                            }
-                            Ty::RegResp => {
-                                let _ = s.client_reg_finish(s.clone_obj(samples.get(Ty::ClientReg)), &mut spec.derive(41).rng(), b"sample password", &obj, Ids::default(), None);
-                            }
-                            Ty::RegUpload => {
-                                let rec = s.server_reg_finish(&obj);
-                                let _ = s.server_login_start(&mut spec.derive(42).rng(), setup, Some(&rec), samples.get(Ty::CredReq), b"cred", None, Ids::default());
-                            }
-                            Ty::ServerReg => {
-                                let _ = s.server_login_start(&mut spec.derive(43).rng(), setup, Some(&obj), samples.get(Ty::CredReq), b"cred", None, Ids::default());
-                            }
-                            Ty::CredReq => {
-                                let _ = s.server_login_start(&mut spec.derive(44).rng(), setup, Some(samples.get(Ty::ServerReg)), &obj, b"cred", None, Ids::default());
-                            }
-                            Ty::CredResp => {
-                                let _ = s.client_login_finish(s.clone_obj(samples.get(Ty::ClientLogin)), b"sample password", &obj, None, Ids::default(), None);
-                            }
-                            Ty::ClientReg => {
-                                let _ = s.client_reg_finish(obj, &mut spec.derive(45).rng(), b"sample password", samples.get(Ty::RegResp), Ids::default(), None);
-                            }
-                            Ty::ClientLogin => {
-                                let _ = s.client_login_finish(obj, b"sample password", samples.get(Ty::CredResp), None, Ids::default(), None);
-                            }
-                            _ => {}
-                        }
-                    })?;
+                    use_accepted(ty, obj, format!("use of an accepted {} with {} := {class}", ty.name(), f.name))?;
+                }
+            }
+        }
+        // (b3) values that exist only in the serde images: the derived serde forms carry enum fields
+        // that the native encodings do not have (the envelope's mode); every occurrence of a variant
+        // index (bincode: u32 1 -> 0) or variant name (JSON: "Internal" -> "Zero") is altered, one at
+        // a time, and whatever still decodes is used like any other accepted value
+        for ty in DECODERS11 {
+            let obj0 = samples.get(ty);
+            let bin = s.ser(Codec::Bincode, obj0);
+            let mut images: Vec<(Codec, Vec<u8>, String)> = Vec::new();
+            for off in 0..bin.len().saturating_sub(3) {
+                if bin[off..off + 4] == [1, 0, 0, 0] {
+                    let mut x = bin.clone();
+                    x[off] = 0;
+                    images.push((Codec::Bincode, x, format!("bincode variant index at offset {off} := 0")));
+                }
+            }
+            let json = s.ser(Codec::Json, obj0);
+            if let Ok(txt) = String::from_utf8(json) {
+                for (pos, _) in txt.match_indices("\"Internal\"") {
+                    let x = format!("{}\"Zero\"{}", &txt[..pos], &txt[pos + "\"Internal\"".len()..]);
+                    images.push((Codec::Json, x.into_bytes(), format!("JSON variant name at {pos} := Zero")));
+                }
+            }
+            for (cd, img, what) in images {
+                let obj = call(&format!("{}::deserialize[{cd:?}] with {what}", ty.name()), || s.de(cd, ty, &img).ok())?;
+                st.eval(1);
+                if let Some(obj) = obj {
+                    used += 1;
+                    st.label("serde-only enum field altered, accepted and used");
+                    use_accepted(ty, obj, format!("use of a {} decoded from its {cd:?} image with {what}", ty.name()))?;
                 }
             }
         }
@@ -534,7 +571,7 @@ pub const BUDGET: Budget = Budget {
 pub fn run(cfg: &RunCfg) -> (Outcome, EvidenceExtra) {
     let out = run_property(cfg, "C12", crate::suites::suites20(), BUDGET, |s| strategy(cfg, s), check);
     let ev = EvidenceExtra {
-        rule: "per generated case and suite: (a) arbitrary byte strings (0..1200 bytes, and lengths around the valid one) and (b) mutants of valid encodings (1-3 bit flips, truncation, extension, chunks spliced in from other messages) to the native, bincode and JSON decoders of all 11 types and of PublicKey/PrivateKey/KeyPair; (b2) every group-element/scalar field of every type replaced by each entry of the invalid-encoding table (identity, zero, order, out-of-range, small order, non-canonical) and by every valid value of the same kind found at another position of the same run (e.g. an ephemeral key equal to a static key) and, if a decoder accepts it, the value is re-serialised through all codecs and fed to the step that consumes it, plus the raw key API on the same bytes; (c) every protocol step (ServerRegistration::start, ClientRegistration::finish, ServerRegistration::finish, ServerLogin::start with and without record, ClientLogin::finish, ServerLogin::finish) fed well-formed values from two unrelated runs/servers/passwords in all combinations; (d) each of password, credential id, client identity, server identity, context set to lengths {0,1,255,256,65535} and one of {65536,65537,131072} with the others fixed. Every call runs under catch_unwind: a panic is a violation. (d) also asserts: in-range lengths complete registration and login with equal keys; over-limit password/identity/context never complete (credential ids of any length work). evaluation = one call; non-trivial = accepted mutants, cross-session deliveries and over-limit runs".into(),
+        rule: "per generated case and suite: (a) arbitrary byte strings (0..1200 bytes, and lengths around the valid one) and (b) mutants of valid encodings (1-3 bit flips, truncation, extension, chunks spliced in from other messages) to the native, bincode and JSON decoders of all 11 types and of PublicKey/PrivateKey/KeyPair; (b2) every group-element/scalar field of every type replaced by each entry of the invalid-encoding table (identity, zero, order, out-of-range, small order, non-canonical) and by every valid value of the same kind found at another position of the same run (e.g. an ephemeral key equal to a static key), plus (b3) every enum variant that exists only in the serde images (the envelope mode) switched in the bincode and JSON images, and, if a decoder accepts it, the value is re-serialised through all codecs and fed to the step that consumes it, plus the raw key API on the same bytes; (c) every protocol step (ServerRegistration::start, ClientRegistration::finish, ServerRegistration::finish, ServerLogin::start with and without record, ClientLogin::finish, ServerLogin::finish) fed well-formed values from two unrelated runs/servers/passwords in all combinations; (d) each of password, credential id, client identity, server identity, context set to lengths {0,1,255,256,65535} and one of {65536,65537,131072} with the others fixed. Every call runs under catch_unwind: a panic is a violation. (d) also asserts: in-range lengths complete registration and login with equal keys; over-limit password/identity/context never complete (credential ids of any length work). evaluation = one call; non-trivial = accepted mutants, cross-session deliveries and over-limit runs".into(),
         assumptions: vec!["non-termination is caught by the watchdog and reported as inconclusive (exit 2)".into()],
         exhaustive: None,
         extra: Default::default(),
